@@ -628,3 +628,128 @@ func c05SnapshotEscape(c *Ctx, r *Report, units []*bodyUnit, rule string) {
 	}
 	// "for every" rule: no instance on the pinned tree, so no floor; seed C05-m14 is its positive example
 }
+
+// ---------------------------------------------------------------- C01-c / C05-b nothing a worker collected is left behind
+
+// c01WorkerForward (…/worker-forward): in the worker, from every append to the
+// slice of collected matches, every path to the function's exit passes a send
+// of that slice on the result channel. The only branch that may be skipped is
+// the one an emptiness test of the slice takes when it is empty - which cannot
+// happen right after an append, unless the slice was re-bound in between (and
+// then the matches are gone, which is exactly what is reported). A worker that
+// keeps matches across input batches and forwards them later loses them when
+// the input channel is closed while it still holds some.
+func c01WorkerForward(c *Ctx, r *Report, rule string) {
+	fi := c.MustFunc(r, rule, extractorPkg, "(*Extractor).asyncWorker")
+	if fi == nil {
+		return
+	}
+	info := fi.Pkg.TypesInfo
+	fg := NewFGraph(fi.Decl.Body, info)
+	n := 0
+	for _, nd := range fg.Nodes {
+		as, ok := nd.N.(*ast.AssignStmt)
+		if !ok || len(as.Lhs) != 1 || len(as.Rhs) != 1 {
+			continue
+		}
+		ce, ok := ast.Unparen(as.Rhs[0]).(*ast.CallExpr)
+		if !ok || calleeName(info, ce) != "builtin.append" || len(ce.Args) < 2 {
+			continue
+		}
+		res := identObj(info, as.Lhs[0])
+		if res == nil || identObj(info, ce.Args[0]) != res {
+			continue
+		}
+		if sl, isSlice := res.Type().Underlying().(*types.Slice); !isSlice || !isNamed(sl.Elem(), extractorPkg, "Match") {
+			continue
+		}
+		n++
+		isSend := func(x *FNode) bool {
+			if x.N == nil {
+				return false
+			}
+			for _, s := range sendSitesIn(c, info, x.N) {
+				if s.Mentions(info, res) {
+					return true
+				}
+			}
+			return false
+		}
+		rebinds := func(x *FNode) bool {
+			switch t := x.N.(type) {
+			case *ast.AssignStmt:
+				for i, l := range t.Lhs {
+					if identObj(info, l) != res {
+						continue
+					}
+					if len(t.Rhs) == len(t.Lhs) {
+						if c2, ok := ast.Unparen(t.Rhs[i]).(*ast.CallExpr); ok && calleeName(info, c2) == "builtin.append" && len(c2.Args) > 0 && identObj(info, c2.Args[0]) == res {
+							continue // grows, keeps the elements
+						}
+					}
+					return true
+				}
+			case *ast.DeclStmt:
+				if gd, ok := t.Decl.(*ast.GenDecl); ok {
+					for _, sp := range gd.Specs {
+						if vs, ok := sp.(*ast.ValueSpec); ok {
+							for _, nm := range vs.Names {
+								if info.Defs[nm] == res {
+									return true
+								}
+							}
+						}
+					}
+				}
+			}
+			return false
+		}
+		type st struct {
+			id       int
+			nonEmpty bool
+		}
+		seen := map[st]bool{}
+		var lost, dropped *FNode
+		var walk func(s st)
+		walk = func(s st) {
+			if seen[s] || lost != nil {
+				return
+			}
+			seen[s] = true
+			x := fg.Nodes[s.id]
+			if s.id == fg.Exit && s.nonEmpty {
+				lost = x
+				return
+			}
+			if s.id != nd.ID && isSend(x) {
+				return
+			}
+			ne := s.nonEmpty
+			if s.id != nd.ID && ne && rebinds(x) {
+				dropped = x
+				lost = x
+				return
+			}
+			for _, e := range x.Succ {
+				feasible := true
+				if e.Cond != nil && e.Tag == nil && ne {
+					for _, at := range atomise(Fact{e.Cond, nil, e.Truth}) {
+						if emptinessOf(info, at.Cond, at.Truth, res) < 0 {
+							feasible = false
+						}
+					}
+				}
+				if feasible {
+					walk(st{e.To, ne})
+				}
+			}
+		}
+		walk(st{nd.ID, true})
+		detail := "from this append there is a path to the end of the worker on which the collected matches are never sent on the result channel: when the input channel is closed while the worker still holds matches (another worker took the last batch) they are counted as matched but never reach the aggregator, so the final render misses them"
+		if dropped != nil {
+			detail = "after this append the slice of collected matches is re-bound (" + c.Pos(dropped.N.Pos()) + ") on a path that did not send it: those matches are counted but never reach the aggregator"
+		}
+		r.Check(lost == nil, rule, fi.Name, exprStr(as.Lhs[0])+" = append(..)", c.Pos(as.Pos()), "path: every path from the append to the exit sends the slice (the empty-slice branch of its emptiness test is infeasible after an append)", detail)
+	}
+	r.Floor(rule, 1, "the append of a match in asyncWorker")
+}
